@@ -27,7 +27,7 @@ Definition c04_rmap := list (nat * c04_lists).           (* std::map<int, pair<s
 Inductive c04_res (A : Type) :=
 | C04_Ok (a : A)
 | C04_OutOfFuel
-| C04_Mixed.       (* ranks disagree on one/two index sets: two-list unpackIndices; outside the property *)
+| C04_Mixed.       (* ranks disagree on ring vs. neighbour mode (inconsistent hints): outside the property *)
 Arguments C04_Ok {A} a.
 Arguments C04_OutOfFuel {A}.
 Arguments C04_Mixed {A}.
@@ -104,18 +104,69 @@ Definition c04_pack (ign two : bool) (src dst : list c04_pair) : c04_msg :=
 Definition c04_lists_empty (x : c04_lists) : bool :=
   match x with ([], []) => true | _ => false end.
 
-(* unpackCreateRemote: None = nothing inserted (both lists empty) *)
+(* unpackIndices, two-list variant (used when the remote process sent ONE index set and we have TWO):
+     while(n_in<remoteEntries && (sourceIndex<localSourceEntries || destIndex<localDestEntries)) {
+       unpack index; advance sourceIndex / destIndex while the local global index is smaller;
+       if localSource[sourceIndex] matches: send.push_back(attr, localSource[sourceIndex]);
+       if localDest[destIndex] matches:     receive.push_back(attr, localDest[destIndex]); }
+   As AFTER fix fixes/C04-1 (the unfixed code pushes localDest[sourceIndex]: finding F-C04-1). *)
+Fixpoint c04_skip_lt (g : nat) (l : list c04_pair) : list c04_pair :=
+  match l with a :: t => if c04_g a <? g then c04_skip_lt g t else l | [] => [] end.
+Definition c04_push_match (index : c04_pair) (loc : list c04_pair) (out : list c04_rentry) : list c04_rentry :=
+  match loc with a :: _ => if c04_g a =? c04_g index then out ++ [(c04_attr index, a)] else out | [] => out end.
+Fixpoint c04_unpack2 (remote localSource localDest : list c04_pair) (send receive : list c04_rentry)
+  : list c04_rentry * list c04_rentry :=
+  match remote with
+  | [] => (send, receive)
+  | index :: rest =>
+      match localSource, localDest with
+      | [], [] => (send, receive)
+      | _, _ =>
+          let s' := c04_skip_lt (c04_g index) localSource in
+          let d' := c04_skip_lt (c04_g index) localDest in
+          c04_unpack2 rest s' d' (c04_push_match index s' send) (c04_push_match index d' receive)
+      end
+  end.
+
+(* the same loop as the UNFIXED code has it: receive.push_back(RemoteIndex(attr, localDest[sourceIndex])).  sourceIndex is
+   recovered as |full source array| - |suffix|; None = the index is outside the localDest array (undefined behaviour). *)
+Fixpoint c04_unpack2_legacy (fullSource fullDest remote localSource localDest : list c04_pair) (send receive : list c04_rentry)
+  : option (list c04_rentry * list c04_rentry) :=
+  match remote with
+  | [] => Some (send, receive)
+  | index :: rest =>
+      match localSource, localDest with
+      | [], [] => Some (send, receive)
+      | _, _ =>
+          let s' := c04_skip_lt (c04_g index) localSource in
+          let d' := c04_skip_lt (c04_g index) localDest in
+          let sourceIndex := length fullSource - length s' in
+          match d' with
+          | a :: _ =>
+              if c04_g a =? c04_g index then
+                match nth_error fullDest sourceIndex with
+                | Some x => c04_unpack2_legacy fullSource fullDest rest s' d' (c04_push_match index s' send) (receive ++ [(c04_attr index, x)])
+                | None => None
+                end
+              else c04_unpack2_legacy fullSource fullDest rest s' d' (c04_push_match index s' send) receive
+          | [] => c04_unpack2_legacy fullSource fullDest rest s' d' (c04_push_match index s' send) receive
+          end
+      end
+  end.
+
+(* unpackCreateRemote: None = nothing inserted (both lists empty).  sendTwo = (source_ != target_) of this process,
+   m_two = the same flag of the sender (first byte of the message); destPairs = sourcePairs when !sendTwo.
+   The two mixed branches are as AFTER fix fixes/C04-1; the unfixed code, for m_two && !sendTwo, joins the receive list with
+   ZERO local entries (destPublish is 0) and re-reads the remote SOURCE block for the send list (position=oldPos). *)
 Definition c04_unpack_create (m : c04_msg) (sourcePairs destPairs : list c04_pair) (sendTwo fromSelf : bool)
   : c04_res (option c04_lists) :=
   c04_bind
     (if negb (c04_m_two m) then
-       if sendTwo then C04_Mixed
+       if sendTwo then C04_Ok (c04_unpack2 (c04_m_src m) sourcePairs destPairs [] [])
        else c04_bind (c04_unpack1 sourcePairs (c04_m_src m) fromSelf) (fun r => C04_Ok (r, r))   (* send=receive *)
      else
        c04_bind (c04_unpack1 destPairs (c04_m_src m) fromSelf) (fun receive =>
-       (* if(!sendTwo) position=oldPos: the source block is read again, noRemoteDest entries of it *)
-       let block := if sendTwo then c04_m_dst m else firstn (length (c04_m_dst m)) (c04_m_src m ++ c04_m_dst m) in
-       c04_bind (c04_unpack1 sourcePairs block fromSelf) (fun send => C04_Ok (send, receive))))
+       c04_bind (c04_unpack1 sourcePairs (c04_m_dst m) fromSelf) (fun send => C04_Ok (send, receive))))
     (fun x => C04_Ok (if c04_lists_empty x then None else Some x)).
 
 (* remoteIndices_.insert(make_pair(remoteProc, ...)): ordered by key, an existing key is kept *)
@@ -196,6 +247,17 @@ Definition c04_build (two ign incself : bool) (d : c04_decomp) (mode : option (l
   let msgs := c04_msgs ign two d in
   map (fun rank => let st := nth rank d ([], []) in
                    c04_build_rank P rank two ign incself (fst st) (snd st) (c04_arrivals P rank msgs mode))
+      (seq 0 P).
+
+(* processes may differ in whether they pass one index-set object for both roles or two: twos[rank] *)
+Definition c04_msgs_mixed (ign : bool) (twos : list bool) (d : c04_decomp) : list c04_msg :=
+  map (fun tst => c04_pack ign (fst tst) (fst (snd tst)) (snd (snd tst))) (combine twos d).
+Definition c04_build_mixed (twos : list bool) (ign incself : bool) (d : c04_decomp) (mode : option (list (list nat)))
+  : list (c04_res c04_rmap) :=
+  let P := length d in
+  let msgs := c04_msgs_mixed ign twos d in
+  map (fun rank => let st := nth rank d ([], []) in
+                   c04_build_rank P rank (nth rank twos false) ign incself (fst st) (snd st) (c04_arrivals P rank msgs mode))
       (seq 0 P).
 
 (* ---- isSynced / rebuild ------------------------------------------------------------------------------ *)
